@@ -6,6 +6,7 @@ from lib import *
 from lib import ABORTS
 
 FAMS_QUICK = ["rw", "nest", "plain", "rec", "strictx", "alias"]
+FAMS_C01 = FAMS_QUICK + ["diam"]
 
 # tier -> per family TLC constants
 TIERS = {
@@ -48,9 +49,9 @@ def harness_groups(groups):
     return [{"f": g["f"], "st": g["st"], "s": g["s"], "o": g["o"]} for g in groups]
 
 
-def run_plain(binary, defs, groups, gdepth, rdepths, scheds=0, widths=None):
+def run_plain(binary, defs, groups, gdepth, rdepths, scheds=0, widths=None, bdepths=None):
     inp = {"defs": defs, "groups": harness_groups(groups), "gdepth": gdepth, "rdepths": rdepths,
-           "scheds": scheds, "mode": "plain", "widths": widths or []}
+           "scheds": scheds, "mode": "plain", "widths": widths or [], "bdepths": bdepths or []}
     recs = run_harness(binary, "check", inp)
     out = {}
     for r in recs:
@@ -107,12 +108,48 @@ def wide_nodes(ck, binary, tier):
     ck.extra["wide_node_cases"] = len(cases)
 
 
+def wide_faults(ck, binary, tier):
+    """C03 on nodes wider than one storage statement: Traverse.tla with a failing statement, then every SQL statement of the
+    real check fails once"""
+    cfg = write_cfg(['Mode = "small"', "MaxN = %d" % (6 if tier == "quick" else 8), "PS = 3"], invariants=["ScanCorrect", "FaultClosed"])
+    r = tlc("Traverse", "a.cfg", files={"a.cfg": cfg}, want_lines=False, workers=8, heap="2g")
+    ck.add_tlc(r)
+    if r.violation:
+        ck.violation("Traverse.tla: " + r.violation, {"tlc": r.raw_tail[-2000:]})
+    ns = [(1001, [1001]), (2001, [2001]), (1500, [1200]), (2001, [])] if tier == "quick" else \
+         [(1001, [1001]), (2001, [2001]), (1500, [1200]), (2001, []), (1001, [1]), (2000, [1000]), (2000, [1001]), (3001, [3001]), (999, [999])]
+    recs = {x["case"]: x for x in run_harness(binary, "traverse", {"cases": [{"n": n, "found": f} for n, f in ns], "sqlfaults": True})}
+    nfault = 0
+    for i, (n, f) in enumerate(ns):
+        ob = recs.get(i)
+        if ob is None:
+            raise Inconclusive("wide fault case %d not replayed" % i)
+        for who in ("u", "v", "nobody"):
+            base, codes = ob["sqlbase_" + who], ob["sqlfault_" + who]
+            want = {"u": bool(f), "v": n > 0, "nobody": False}[who]
+            if base != ("I" if want else "N"):
+                ck.violation("check on a node with %d subject sets answered %s for subject %s" % (n, base, who), {"subject_sets": n, "found_rows": f})
+            if not codes:
+                raise Inconclusive("no SQL statement seen for the wide-node check")
+            for k, c in zip(ob["sqlks_" + who], codes):
+                ck.evaluations += 1
+                nfault += 1
+                if c not in ("E", base):
+                    ck.violation("a failing SQL statement (the %d-th of %d) during a check on a node with %d subject sets gave %s; without the fault the answer is %s"
+                                 % (k, ob["sqlstmts_" + who], n, {"I": "allowed", "N": "denied", "X": "allowed together with an error", "U": "unknown"}.get(c, c), base),
+                                 {"subject_sets_on_node": n, "rows_directly_containing_the_subject": f, "subject": who, "failing_statement": k,
+                                  "outcomes_per_failing_statement": codes, "fault_free": base})
+                if c == "E" and n > 1000:
+                    ck.nontrivial.add(("widefault", n, tuple(f), who, k))
+    ck.extra["wide_node_sql_fault_runs"] = nfault
+
+
 def c01(tier):
     ck = Check("C01", tier)
     binary = build_harness()
     p = TIERS[tier]
     wide_nodes(ck, binary, tier)
-    defs, groups = oracle(tier, FAMS_QUICK, ck)
+    defs, groups = oracle(tier, FAMS_C01, ck)
     dmax = p["dmax"]
     rdepths = list(range(1, dmax + 1))
     scheds = 2 if tier == "quick" else 3
@@ -182,11 +219,32 @@ def c02(tier):
     # run A: global depth = dmax, request depths 1..dmax (effective depth = request depth) plus out-of-range requests
     extra_r = [-3, 0, dmax + 1, dmax + 5]
     rdA = list(range(1, dmax + 1)) + extra_r
-    resA = run_plain(binary, defs, groups, dmax, rdA, scheds=1)
+    bdA = [dmax + 1, dmax + 5, 0, 2]
+    resA = run_plain(binary, defs, groups, dmax, rdA, scheds=1, bdepths=bdA)
     # run B: a lower global depth; every request is clamped to eff(r, g2)
     g2 = 3
     rdB = [-2, 0, 1, 2, 3, 4, dmax + 2]
-    resB = run_plain(binary, defs, groups, g2, rdB, scheds=0)
+    bdB = [4, dmax + 2, -2, 2]
+    resB = run_plain(binary, defs, groups, g2, rdB, scheds=0, bdepths=bdB)
+    batch_cmp = 0
+
+    def batch_agrees(r, rd, bd, g, wi, gdepth):
+        """every batch transport, at request depth d, answers entry by entry what the single check answers at d on the same server"""
+        nonlocal batch_cmp
+        for bi, d in enumerate(bd):
+            for tr, key in (("engine BatchCheck", "pbe"), ("gRPC BatchCheck", "pbg"), ("REST batch check", "pbr")):
+                got = (r.get(key) or [])
+                if bi >= len(got) or len(got[bi]) != len(g["q"]):
+                    raise Inconclusive("batch result missing (%s, depth %d): %r" % (tr, d, got[bi] if bi < len(got) else None))
+                for qi, q in enumerate(g["q"]):
+                    batch_cmp += 1
+                    ck.evaluations += 1
+                    single = r["res"][qi][rd.index(d)].replace("U", "N")
+                    if got[bi][qi] != single and not (single == "H"):
+                        ck.violation("%s at request depth %d (server limit %d) answers %s for an entry whose single check answers %s"
+                                     % (tr, d, gdepth, got[bi][qi], single),
+                                     dict(case_id(g, wi, qi, d, defs), observed=got[bi][qi], expected=single, global_depth=gdepth, transport=tr))
+
     known = known_findings("C02")
     kf = {f["id"]: f for f in known}
     clamp_cases = 0
@@ -199,6 +257,8 @@ def c02(tier):
                     if ABORTS:
                         continue
                     raise Inconclusive("missing harness result")
+                if run == 0:
+                    batch_agrees(r, rdA, bdA, g, wi, dmax)
                 for qi, q in enumerate(g["q"]):
                     line = q["w"][wi]
                     real = r["res"][qi]
@@ -231,6 +291,7 @@ def c02(tier):
                 if ABORTS:
                     continue
                 raise Inconclusive("missing harness result (run B)")
+            batch_agrees(rb, rdB, bdB, g, wi, g2)
             for qi, q in enumerate(g["q"]):
                 line = q["w"][wi]
                 for di, d in enumerate(rdB):
@@ -249,8 +310,10 @@ def c02(tier):
         if f["id"] not in ck.known_hits and not ck.violations:
             raise Inconclusive("known finding %s did not reproduce on its witness: remove it from known_findings.json" % f["id"])
     ck.extra["clamp_comparisons"] = clamp_cases
+    ck.extra["batch_entry_comparisons"] = batch_cmp
     ck.rule = ("cases of CheckCases.tla at every depth 1..%d and width, plus out-of-range request depths and a second "
-               "server with global depth %d; non-trivial: the spec says the limits are binding for the case" % (dmax, g2))
+               "server with global depth %d; the same queries as one batch through engine, gRPC and REST batch check at in-range and out-of-range request "
+               "depths must answer entry by entry like the single check; non-trivial: the spec says the limits are binding for the case" % (dmax, g2))
     ck.exhaustive = (p["sample"] == 0)
     ck.assumptions = ["sqlite in-memory backend only", "attribution of the recorded fail-open finding is by exact agreement with the as-is model (collapse on) and disagreement of the three-valued model"]
     ck.finish()
@@ -304,9 +367,11 @@ def c03(tier):
                         elif i < len(base) and c == "I" and base[i] != "I":
                             ck.violation("storage failure turned a denied batch entry into allowed", cid)
     ck.extra["fault_positions"] = positions
+    wide_faults(ck, binary, tier)
     ck.rule = ("for every sampled case the fault-free run is counted (N storage calls), then call k = 1..N+1 fails once, "
-               "persistently, and with context.Canceled; non-trivial: the fault changed the outcome")
-    ck.assumptions = ["faults are injected at the Manager/Traverser interface the engine uses, not inside the SQL driver",
+               "persistently, and with context.Canceled; on nodes with more subject sets than one storage statement fetches (1001..3001) every SQL "
+               "statement of the check fails once (Traverse.tla FaultClosed: error or the complete result, never a prefix); non-trivial: the fault changed the outcome")
+    ck.assumptions = ["faults are injected at the Manager/Traverser interface the engine uses; inside the SQL driver only for the wide-node cases",
                       "call numbering follows arrival order under the engine's own concurrency"]
     ck.finish()
 
